@@ -39,6 +39,8 @@ GLOBAL_DROPS = [
     ('attr-doc-hidden', r'#\[doc\(hidden\)\]'),
     ('attr-derive-debug', r'#\[derive\(Debug\)\]'),
     ('debug-log', r'\bdebug!\((?:[^()]|\([^()]*\))*\);'),
+    # statements of the verification hooks: not part of the crate when the guard is off
+    ('hook-stmt', r'#\[cfg\(aho_corasick_verif\)\]\s*[^;{}]*;'),
 ]
 
 GLOBAL_REWRITES = [
@@ -304,11 +306,17 @@ def expand_template(tpl_text, repo, tpl_name='unit', canary=False):
                     edits.append((lp[k - 1] + 1, ' assert(false); /*CANARY loop %d of %s*/ ' % (k, anchor.replace('*/', ''))))
                     ex.canaries.append('loop %d of %s' % (k, anchor))
             ex.rule_hits.setdefault('loops:' + anchor, len(lp))
-        if canary and kind == 'fn' and body.startswith('{') and not opts.get('nocanary'):
+        if canary and kind == 'fn' and body.startswith('{') and not opts.get('nocanary') and not stub:
             edits.append((1, ' assert(false); /*CANARY fn %s*/ ' % anchor.replace('*/', '')))
             ex.canaries.append('fn ' + anchor)
         for pos, text in sorted(edits, key=lambda e: (-e[0], 0 if 'CANARY' in e[1] else 1)):
             body = body[:pos] + text + body[pos:]
+        stub = opts.get('stub')
+        if stub in ('0', '', None):
+            stub = None
+        if kind == 'fn' and stub:
+            # modular stub: the callee's contract only; its body is verified in unit `stub`
+            body = '{ unimplemented!() }'
         if kind == 'fn':
             head, ret, where = _split_sig(sig)
             res = opts.get('res', 'res')
@@ -328,11 +336,13 @@ def expand_template(tpl_text, repo, tpl_name='unit', canary=False):
         gen = re.sub(r'\n[ \t]*(?=\n)', '\n', gen)
         gen = re.sub(r'\n{3,}', '\n\n', gen)
         g0 = len(out_lines) + 1
+        if kind == 'fn' and stub:
+            out_lines.append('#[verifier::external_body] // MODULAR-STUB-OF %s: contract discharged there on the real body' % stub)
         out_lines.append('// >>> extracted from /repo/%s lines %d-%d sha256=%s' % (rel, src_line0, src_line1, sha[:16]))
         out_lines.extend(gen.split('\n'))
         out_lines.append('// <<< end of extract')
         ex.linemap.append((g0, len(out_lines), rel, src_line0, anchor))
         ex.functions.append({'anchor': anchor, 'file': rel, 'lines': [src_line0, src_line1],
-                             'sha256': sha, 'kind': kind})
+                             'sha256': sha, 'kind': kind if not stub else 'stub-of:' + stub})
     ex.dropped['comment_lines_in_files_read'] = sum(f.dropped_comment_lines for f in files.values())
     return '\n'.join(out_lines), ex
